@@ -187,7 +187,10 @@ class XlsObject:
             defaults_factories = [None for _ in range(len(cells_types))]
         assert len(cells_types) == len(defaults_factories)
 
-        anchor_cell = cells_list[0]
+        # anchor is the first attribute which is read from a single cell
+        # (first attributes may be external, ranged or have no column)
+        anchor_cell = next(
+            c for c in cells_list if c is not None and not isinstance(c, tuple))
         self._src_ws_name = anchor_cell.parent.title
         if ' ' in self._src_ws_name:
             self._src_ws_name = f"'{self._src_ws_name}'"
